@@ -75,6 +75,45 @@ namespace verif
         long                         n_alloc = 0, n_dealloc = 0, n_fail = 0;
         int                          cur_tag = 0;
         std::vector<std::string>     errors; // ledger violations (double free, wrong size, unknown pointer)
+        std::vector<UpBlock>         poisoned; // released blocks, filled with 0xEE: nobody may write into them any more
+        bool                         poison = true;
+
+        // memory that was returned upstream must not be written to afterwards (use after release)
+        void verify_poison(std::size_t off, std::size_t size, const char* when)
+        {
+            auto p = reinterpret_cast<unsigned char*>(base + off);
+            for (std::size_t i = 0; i < size; ++i)
+                if (p[i] != 0xEE)
+                {
+                    char buf[160];
+                    std::snprintf(buf, sizeof buf, "memory at %zu (block %zu:%zu) was written after it had been returned upstream (%s): byte %02x",
+                                  off + i, off, size, when, p[i]);
+                    if (errors.size() < 10)
+                        errors.push_back(buf);
+                    return;
+                }
+        }
+        // a range is about to be handed out again / the run ends
+        void unpoison_overlapping(std::size_t off, std::size_t size)
+        {
+            for (std::size_t i = 0; i < poisoned.size();)
+            {
+                auto& b = poisoned[i];
+                if (b.off < off + size && off < b.off + b.size)
+                {
+                    verify_poison(b.off, b.size, "found when the space was reused");
+                    poisoned.erase(poisoned.begin() + long(i));
+                }
+                else
+                    ++i;
+            }
+        }
+        void verify_all_poison()
+        {
+            for (auto& b : poisoned)
+                verify_poison(b.off, b.size, "found at the end of the run");
+            poisoned.clear();
+        }
 
         Region()
         {
@@ -164,6 +203,8 @@ namespace verif
                     std::_Exit(77);
                 }
             }
+            if (poison)
+                unpoison_overlapping(o, size);
             outstanding.push_back({o, size, align, cur_tag});
             ++n_alloc;
             std::snprintf(buf, sizeof buf, "a:%zu:%zu:%zu", size, align, o);
@@ -185,6 +226,11 @@ namespace verif
                     if (outstanding[i].size != size)
                         errors.push_back(std::string("size mismatch on release ") + buf);
                     auto b = outstanding[i];
+                    if (poison && b.size == size)
+                    {
+                        std::memset(base + b.off, 0xEE, b.size);
+                        poisoned.push_back(b);
+                    }
                     // C05: blocks go back in reverse order of acquisition (per requester)
                     for (std::size_t j = i + 1; j < outstanding.size(); ++j)
                         if (outstanding[j].tag == b.tag)
